@@ -9,7 +9,10 @@ from checks import shapes as S
 
 def run(ctx):
     ctx.cov["rule"] = ("cases = one ForProductN/ForSpectrumN derivation (N=1..9, by name or by type) on a generated struct shape, every returned optic "
-                       "executed on a guard-wrapped value; non-trivial = tuple containing a focus at embedding depth >= 1 or at a non-zero offset; "
+                       "executed on a guard-wrapped value with byte patterns; plus, per optic whose focus type holds references (pointer, slice, map, interface, arrays/structs of those), one "
+                       "valid-value case: real values through the field's selector, Put of a deeply-equal-but-distinct value, of other content, of the zero value, over the zero value, "
+                       "field bits / Get / frame compared afterwards (direct oracle only, no model side: the byte-memory model has no identity); "
+                       "non-trivial = tuple containing a focus at embedding depth >= 1 or at a non-zero offset, valid-value case whose deeply equal pair are distinct objects; "
                        "distinct by (shape s-expression, request)")
     ctx.assumptions += ["gc/amd64 struct layout and reflect's field description are modelled (Model/Layout), validated against the compiler on every generated shape (C03 harness)",
                         "memory is a byte map; a value of type A is size(A) bytes; GC, write barriers and memory outside the guard areas are outside the model",
@@ -46,6 +49,14 @@ def run(ctx):
                 ctx.violations.append(vlib.Violation("impl", "deriving a %s for existing fields (%s) panics" % ("Lens" if meta["fam"] == "P" else "Reflector", meta["mode"]),
                                                      case=S.case_of(b, req, meta), expected="ok", got=res, key={"class": "derive-panics"}))
                 continue
+            # valid-value phase (go/harness/layout/deep.go): every optic whose focus type holds references was also run on real
+            # values, incl. a Put of a value deeply equal to but not identical with the field's current one (d) - these
+            # cases exist on the implementation side only (the byte-memory model has no notion of identity)
+            for tok in (b.chk.get("dpv " + req) or "").split():
+                i, k, d = tok.split(":")
+                ctx.count(S.sexpr(sh.type) + "|" + req + "|valid-values#" + i, nontrivial=d == "d")
+                ctx.hist("valid_value_focus_kind", k)
+                ctx.hist("valid_value_deep_equal_pair", "distinct objects" if d == "d" else "bit-identical (chan / zero-size pointee / method interface)")
             verdict = b.chk.get(req)
             if verdict != "ok":
                 ctx.violations.append(vlib.Violation("impl", "lens law / frame violated on real memory: %s" % (verdict or "no verdict printed")[:400],
